@@ -4,5 +4,5 @@ CHECK_DEADLOCK FALSE
 CONSTANTS
   Sleeps = {1, 2}
   Durations = {0, 1, 2}
-  MaxTime = 4
+  MaxTime = 3
   SpuriousPolls = TRUE
